@@ -27,6 +27,13 @@ def main():
     if not os.path.abspath(phyclone.__file__).startswith(os.path.abspath(repo) + os.sep):
         print("HARNESS-ERROR property=%s phyclone imported from %s, expected under %s" % (pid, phyclone.__file__, repo))
         sys.exit(2)
+    # import everything first (scipy draws example values while building its docs), then forbid
+    import phyclone.run  # noqa: F401
+    import phyclone.process_trace  # noqa: F401
+    import scipy.stats  # noqa: F401
+    from mc.enumrng import forbid_global_randomness
+
+    forbid_global_randomness()
     mod = importlib.import_module("mc.checks.%s" % pid.lower())
     if args.replay:
         sys.exit(mod.replay(args.replay))
